@@ -205,7 +205,7 @@ pub fn gen_token(rng: &mut Rng) -> String {
     let intro = |r: &mut Rng| -> &'static str { if r.chance(3, 4) { "\u{1b}[" } else { "\u{9b}" } };
     let finals = ['@', 'A', 'B', 'C', 'D', 'E', 'F', 'G', 'H', 'J', 'K', 'L', 'M', 'P', 'X', 'a', 'c', 'd', 'e', 'f', 'g', 'h', 'l', 'm', 'r', 'h', 'l', 'm', 'H', 'z', 'p', 'q', 'n'];
     match rng.below(18) {
-        0..=2 => { let n = 1 + rng.below(3); (0..n).map(|_| *rng.pick(&['a', 'Z', '~', ' ', '\u{e9}', '\u{3042}', '\u{301}', '0', ';', '[', ']'])).collect() }
+        0..=2 => { let n = 1 + rng.below(3); (0..n).map(|_| *rng.pick(&['a', 'Z', '~', ' ', '\u{e9}', '\u{3042}', '\u{301}', '0', ';', '[', ']', '\u{11b}', '\u{107}', '\u{19b}', '\u{10a}', '\u{13b}', '\u{418}', '\u{100}'])).collect() }
         3 => rng.pick(&["\u{7}", "\u{8}", "\t", "\n", "\u{b}", "\u{c}", "\r", "\u{e}", "\u{f}", "\r\n"]).to_string(),
         4 => format!("\u{1b}{}", rng.pick(&['c', 'D', 'E', 'M', 'H', '7', '8', '=', '>', 'Z', '\\', 'x', '\r', '\u{7}'])),
         5 => format!("\u{1b}#{}", rng.pick(&['8', '3', 'x', '\n'])),
